@@ -192,6 +192,12 @@ def mkh(kind):
         bounds="0..2 header rows (auto text | explicit), 2..3 displayed columns, as_colheader / first page / page border symbolic; rendered twice",
         what="rendering column headers does not modify the document's header objects, so a second encode renders - and reserves rows - "
              "exactly as the first"))
+    # O7: the width measurement that feeds pagination does not remember earlier measurements (shared with C20-O3)
+    from .C20 import build as c20_build
+    for ob in c20_build(tier, seed)[0]:
+        if ob.oid == "O3.history_independent":
+            ob.oid = "O7.width_history"
+            obs.append(ob)
     meta = {
         "explanation": "Instead of exploring histories, the pre-state is made symbolic: for an ARBITRARY residual colour context "
                        "(the only process-global state the encode path reads, cf. the census of C15) the real encode paths must "
